@@ -58,6 +58,6 @@ var propSpecs = map[string]PropSpec{
 	"C18": {ID: "C18", Level: "proof", Patterns: modelPkgs},
 	"C19": {ID: "C19", Level: "proof", Patterns: modelPkgs},
 	"C20": {ID: "C20", Level: "other", Patterns: modelPkgs,
-		Explanation: "Partial decision by contract proofs on the real code: vapour pressure positive, wet-bulb bisection bracket invariant, depression identity, pointwise data flow per timestep. The ordering claims that need properties of the transcendental formulas themselves (monotonicity of Goff-Gratch, dew point <= dry bulb, dew point rising with humidity, finiteness) are not decidable with uninterpreted math functions and are not covered.",
-		NotCovered: []string{"saturation vapour pressure strictly increasing with temperature", "dew point <= dry bulb and rising with humidity", "finiteness of all outputs (division by atmPressure - vapourPressure, 17.27 - F)", "observed by a seeding sub-agent, not decided by any contract: at 100 % relative humidity the computed dew point exceeds the dry-bulb temperature by up to 0.0062 degC (the Goff-Gratch vapour pressure and the Magnus inverse are different approximations)"}},
+		Explanation: "Partial decision by contract proofs on the real code: vapour pressure positive, wet-bulb bisection bracket invariant, depression identity, pointwise data flow per timestep, dew point rising with humidity (relational harness). The ordering claims that need properties of the transcendental formulas themselves (monotonicity of Goff-Gratch, dew point <= dry bulb, finiteness) are not decidable with uninterpreted math functions and are not covered.",
+		NotCovered: []string{"saturation vapour pressure strictly increasing with temperature", "dew point <= dry bulb", "finiteness of all outputs (division by atmPressure - vapourPressure, 17.27 - F)", "observed by a seeding sub-agent, not decided by any contract: at 100 % relative humidity the computed dew point exceeds the dry-bulb temperature by up to 0.0062 degC (the Goff-Gratch vapour pressure and the Magnus inverse are different approximations)"}},
 }
